@@ -155,6 +155,10 @@ class Machine:
         if isinstance(e, (ast.GeneratorExp, ast.ListComp)) and len(e.generators) == 1 and not e.generators[0].ifs \
                 and isinstance(e.generators[0].target, ast.Name) and self.comprehensions:
             st2 = dict(st)
+            try:
+                self.last_iterated = self.ev(e.generators[0].iter, st)
+            except AnalysisError:
+                self.last_iterated = None
             st2[e.generators[0].target.id] = Sym('EL:' + ast.unparse(e.generators[0].iter))
             return Each(self.ev(e.elt, st2))
         if self.expr is not None:
